@@ -42,6 +42,17 @@ cell, in a helper subprocess per shard.  This file is the *model* side and impor
   functions / callable objects / classes imported from a module next to the file, functools.partial objects,
   enum members of the standard library.
 
+    N  what a configuration file may contain BESIDES settings: a module-level name that is not a setting but resembles
+       one - the setting's name in another letter case (TIMEOUT, Timeout, KeepAlive, Graceful_Timeout), with an
+       underscore / a prefix / a suffix (timeout_, _timeout, my_timeout, timeout_value), a helper class / function /
+       import bound to the name in another case (class Bind, def User, import collections as WORKERS) - bound to a
+       VALID value of that setting which differs from what the merge of the sources gives (or to the class / function /
+       module), in a file that does not mention the setting at all / mentions it after / before the name, while nobody
+       else / the framework / GUNICORN_CMD_ARGS / the command line mentions the setting too, for every way a file
+       reaches gunicorn (-c, -c in GUNICORN_CMD_ARGS, ./gunicorn.conf.py, file:PATH, python:MODULE).  Such a name
+       mentions nothing: every setting must be what the merge of the real mentions gives and loading must not fail;
+    NR the same in reload histories on a real Arbiter: an edit adds / removes / rebinds such a name (and changes the
+       value of another setting of the file, which shows that the reload read the edit);
     E  for a setting whose EFFECTIVE value (the derived Config property the server acts on) takes its built-in default
        from an environment variable at access time (sendfile <- SENDFILE): every subset of the sources, the empty one
        included, x every value of the pool x the variable unset / set to enabling, disabling, odd-case, meaningless
@@ -79,12 +90,16 @@ RULE = ("cell = (kind, setting, set of mentioning sources, value assignment, way
         "other source mentioning the setting, delivery, for raw_env histories the variables its entries name "
         "(GUNICORN_CMD_ARGS carrying flags for the setting under test and for an unmentioned setting | that plus "
         "WEB_CONCURRENCY, PORT, FORWARDED_ALLOW_IPS | an unrelated name) and when the file carries them (from the "
-        "start | introduced by the edit | dropped by the edit)); non-trivial = "
+        "start | introduced by the edit | dropped by the edit) | name that is not a setting: setting it resembles, shape "
+        "of the name (other letter case, underscore / prefix / suffix, class / function / import in another case), where "
+        "the file mentions the real setting (not at all, before, after the name), other source mentioning the setting, "
+        "delivery, for histories the edit (name added / removed / rebound)); non-trivial = "
         "the mentioning sources do not all say the same normal form (one source: it differs from the built-in "
         "default), every invalid cell, every cross-setting cell, every history whose edit changes what the merge of "
         "the sources is or leaves a more authoritative source in charge, every raw_env cell whose entries name "
-        "GUNICORN_CMD_ARGS (what they say always differs from the merge of the sources in at least one setting); "
-        "distinct by cell")
+        "GUNICORN_CMD_ARGS (what they say always differs from the merge of the sources in at least one setting), every "
+        "cell with a name that is not a setting (what the name is bound to always differs from the merge of the sources "
+        "for the setting it resembles); distinct by cell")
 SOURCES = ("cli", "env", "file", "framework")          # most authoritative first
 NSHARDS = 32
 FLAG = True                                            # cli rendering of store_true / store_const flags
@@ -454,6 +469,7 @@ def enumerate_cells(meta, tier, seed):
                     if tier != "quick" and len(upper) > 1:
                         cells.append({"kind": "I", "s": m["name"], "src": src, "bad": bad["label"], "fallback": upper[0], "stronger": True})
     cells.extend(enumerate_histories(meta, tier, seed, P))
+    cells.extend(enumerate_names(meta, tier, seed, P))
     return cells
 
 
@@ -539,7 +555,8 @@ def enumerate_raw_env_histories(meta, tier, seed, P):
 def signature(c):
     return "|".join(str(c.get(k, "")) for k in ("kind", "s", "subset", "off", "step", "delivery", "a", "b", "src",
                                                 "bad", "fallback", "op", "ctx", "pos", "var", "when", "genv")) + (
-                                                    "|envv=%r" % c["envv"] if "envv" in c else "")
+                                                    "|envv=%r" % c["envv"] if "envv" in c else "") + (
+                                                        "|%s|%s" % (c["shape"], c["place"]) if "shape" in c else "")
 
 
 # ---- from a symbolic cell to a concrete recipe + what the model expects ---------------------------------
@@ -796,6 +813,212 @@ def build_history(cell, MB, P, baseline):
     model = {"versions": out, "mentions": out[0]["mentions"], "load": out[0]["load"], "dpn": dpn, "ment": [],
              "companions": {"file": T, "cli": U, "env": None if bare else W}, "raw_env_claims": claims, "raw_env_text": raw_text,
              "unmentioned": T2}
+    return recipe, model
+
+
+# ---- names that are not settings: what a configuration file may contain besides settings ----------------
+#
+# gunicorn copies those module-level names of the executed file / module into the configuration that ARE settings;
+# every other name - the application's own constants, helper classes and functions, imports - is documented as
+# ignored.  A name that merely resembles a setting mentions nothing: cells N / NR put one next to (before, after,
+# instead of) a real mention of that setting and expect exactly the model's merge of the real mentions.
+
+N_SHAPES = (
+    # label, family (part of the mechanism name), what the name is bound to
+    ("upper-case-constant", "other-letter-case", "value"),
+    ("capitalised-constant", "other-letter-case", "value"),
+    ("mixed-case-constant", "other-letter-case", "value"),
+    ("trailing-underscore", "affixed", "value"),
+    ("leading-underscore", "affixed", "value"),
+    ("prefixed", "affixed", "value"),
+    ("suffixed", "affixed", "value"),
+    ("class-in-other-case", "other-letter-case", "class"),
+    ("function-in-other-case", "other-letter-case", "def"),
+    ("import-in-other-case", "other-letter-case", "import"),
+)
+N_SHAPE = {label: (family, binding) for label, family, binding in N_SHAPES}
+N_PLACES = ("only", "before", "after")          # the file does not mention the real setting / does so after / before the name
+N_DELIVERIES = ("cli-c", "env-c", "discover", "fileprefix", "python")
+N_CTX = ("none", "framework", "none", "env", "framework", "cli")       # rotation of "who else mentions the setting"
+N_OPS = ("name-added", "name-removed", "name-rebound")
+N_END = "#end"                                  # the generated file records that its last line ran, and with which name bound
+
+
+def near_name(label, name):
+    """The name that is NOT the setting `name` but resembles it."""
+    if label in ("upper-case-constant", "import-in-other-case"):
+        return name.upper()
+    if label in ("capitalised-constant", "class-in-other-case", "function-in-other-case"):
+        return name.capitalize()
+    if label == "mixed-case-constant":          # Graceful_Timeout, KeepAlive, TimEout
+        parts = name.split("_")
+        if len(parts) > 1:
+            return "_".join(p.capitalize() for p in parts)
+        half = max(1, len(name) // 2)
+        return name[:half].capitalize() + name[half:].capitalize()
+    return {"trailing-underscore": name + "_", "leading-underscore": "_" + name, "prefixed": "my_" + name,
+            "suffixed": name + "_value"}[label]
+
+
+def enumerate_names(meta, tier, seed, P):
+    """N / NR cells.  quick: per setting every shape once (the two plain other-case constants in every place), place,
+    delivery and the other mentioning source rotating from cell to cell, starting at the seed; three histories (one
+    per edit) with the shape rotating.  thorough: every shape x place x delivery, every shape x edit x place as a
+    history.  `config`: the file never mentions it itself (that is a delivery: cells M / D), nobody else either."""
+    cells = []
+    known = {m["name"] for m in meta}
+    n = seed
+    for m in meta:
+        pool = pool_for(m, P)
+        if pool is None:
+            continue
+        name = m["name"]
+        places = N_PLACES if name != "config" else ("only",)
+        off = seed % len(pool)
+
+        def ctx_at(k):
+            c = N_CTX[k % len(N_CTX)] if name != "config" else "none"
+            return c if m["cli"] or c in ("none", "framework") else ("none", "framework")[k % 2]
+
+        shapes = [label for label, _, _ in N_SHAPES
+                  if near_name(label, name) not in known and near_name(label, name).isidentifier()]
+        for label in shapes:
+            if tier == "quick":
+                pls = places if label in ("upper-case-constant", "capitalised-constant") else (places[n % len(places)],)
+                for pl in pls:
+                    cells.append({"kind": "N", "s": name, "shape": label, "place": pl, "ctx": ctx_at(n // 3),
+                                  "delivery": N_DELIVERIES[n % 5], "off": off})
+                    n += 1
+            else:
+                for pl in places:
+                    for dl in N_DELIVERIES:
+                        cells.append({"kind": "N", "s": name, "shape": label, "place": pl, "ctx": ctx_at(n),
+                                      "delivery": dl, "off": off})
+                        n += 1
+        for op in N_OPS:
+            for label in ([shapes[n % len(shapes)]] if tier == "quick" else shapes) if shapes else []:
+                for pl in ((places[(n // 2) % len(places)],) if tier == "quick" else places):
+                    cells.append({"kind": "NR", "s": name, "shape": label, "place": pl, "op": op, "ctx": ctx_at(n // 3),
+                                  "delivery": R_DELIVERIES[n % 4], "off": off})
+                    n += 1
+        n += 1                                  # the rotation must not fall into step with the cells per setting
+    return cells
+
+
+def _names_text(items, ident):
+    """items: ("set", name, value) | ("raw", python text) in file order.  The last line records in the list the
+    header created that the whole file ran, and whether `ident` was bound in it then."""
+    pre = []
+    for it in items:
+        if it[0] == "set" and it[2]["pre"] and it[2]["pre"] not in pre:
+            pre.append(it[2]["pre"])
+    body = "".join("%s = %s\n" % (it[1], it[2]["py"]) if it[0] == "set" else it[1] + "\n" for it in items)
+    end = "_c16_sys.%s.append(__file__ + %r + (' with ' if %r in globals() else ' without ') + %r)\n" % (
+        e7.MARK, N_END, ident, ident)
+    return e7.FILE_HEADER + "".join(x + "\n" for x in pre) + body + end
+
+
+def build_names(cell, MB, P, baseline):
+    """-> recipe (N: one load; NR: with steps), model with one entry of "versions" per version of the file.
+    As in the other histories the command line holds a setting U, GUNICORN_CMD_ARGS a setting W and the file a
+    setting T (whose value every edit changes), none of them the setting the name resembles."""
+    m = MB[cell["s"]]
+    name = m["name"]
+    pool = pool_for(m, P)
+    family, binding = N_SHAPE[cell["shape"]]
+    ident = near_name(cell["shape"], name)
+    others = [c for c in R_COMPANIONS if c != name]
+    T, U, W = others[0], others[1], others[2]
+    argv, envt, fixed = [], [], {}
+
+    def say(src, sname, v):
+        (argv if src == "cli" else envt).extend(cli_tokens(MB[sname], v, src))
+        fixed.setdefault(sname, {})[src] = v["nf"]
+
+    u, w, tp = pool_for(MB[U], P), pool_for(MB[W], P), pool_for(MB[T], P)
+    say("cli", U, u[pick(u, "cli", 1)])
+    say("env", W, w[pick(w, "env", 2)])
+    if cell["delivery"] == "python":
+        argv += ["--config=python:c16_cfgmod_main"]
+        fixed.setdefault("config", {})["cli"] = ser("python:c16_cfgmod_main")
+        load = P["pymod"]
+    else:
+        load = _deliver(cell["delivery"], P, argv, envt, fixed)
+    t_a, t_b = tp[pick(tp, "file", 1)], tp[pick(tp, "file", 2)]
+    fw, dpn, c = None, ser("app:app"), None
+    ctx = cell["ctx"]
+    if ctx != "none":
+        c = _choose(pool, ctx, cell["off"], ())
+        if ctx == "framework":
+            fw = c
+            fixed.setdefault(name, {})["framework"] = c["nf"]
+        else:
+            say(ctx, name, c)
+            if name == "paste" and ctx == "cli":
+                dpn = ser(os.path.abspath(c["cli"]).split("#")[0])
+    default = baseline[name]
+    a = None
+    if cell["place"] != "only":
+        away = (c["nf"],) if c else ()
+        a = _choose(pool, "file", cell["off"], away, (default,)) or _choose(pool, "file", cell["off"], ())
+    real = {k: dict(v) for k, v in fixed.items()}
+    if a is not None:
+        real.setdefault(name, {})["file"] = a["nf"]
+    merged = expected(name, {"mentions": real, "dpn": dpn}, baseline)[0]
+    # what the name is bound to: never what the merge of the real mentions gives for the setting it resembles
+    said = tuple(x["nf"] for x in (a, c) if x) + (default,)
+    d1 = _choose(pool, "file", cell["off"] + 1, (merged,), said)
+    d2 = _choose(pool, "file", cell["off"] + 2, (merged, d1["nf"] if d1 else merged), said)
+    objects = {"class": ("class %s:\n    pass" % ident, "<class %s>" % ident),
+               "def": ("def %s():\n    pass" % ident, "<fn %s>" % ident),
+               "import": ("import collections as %s" % ident, "<obj module>")}
+
+    def bound(kind, v=None):
+        """-> (file item, normal form of what the name is bound to)"""
+        if kind == "value":
+            return ("set", ident, v), v["nf"]
+        return ("raw", objects[kind][0]), objects[kind][1]
+
+    if binding == "value":
+        if d1 is None:
+            raise AssertionError("cell %s: no value for the name" % signature(cell))
+        first = bound("value", d1)
+        second = bound("value", d2) if d2 is not None else bound("class")
+    else:
+        first = bound(binding)
+        second = bound("value", d1) if d1 is not None else bound("def" if binding != "def" else "class")
+
+    def lines(t, decoy):
+        mention = [("set", name, a)] if a is not None else []
+        comp = [("set", T, t)]
+        if decoy is None:
+            return mention + comp if cell["off"] % 2 == 0 else comp + mention
+        if cell["place"] == "before":
+            return [decoy[0]] + comp + mention
+        if cell["place"] == "after":
+            return mention + comp + [decoy[0]]
+        return comp + [decoy[0]] if cell["off"] % 2 == 0 else [decoy[0]] + comp
+
+    if cell["kind"] == "N":
+        plan = [(t_a, first)]
+    else:
+        plan = {"name-added": [(t_a, None), (t_b, first)], "name-removed": [(t_a, first), (t_b, None)],
+                "name-rebound": [(t_a, first), (t_b, second)]}[cell["op"]]
+    versions, texts = [], []
+    for t, decoy in plan:
+        ment = {k: dict(v) for k, v in real.items()}
+        ment.setdefault(T, {})["file"] = t["nf"]
+        text = _names_text(lines(t, decoy), ident)
+        texts.append(text)
+        versions.append({"mentions": ment, "load": [load, load + N_END + (" with " if decoy else " without ") + ident],
+                         "text": text[len(e7.FILE_HEADER):], "name_bound_to": decoy[1] if decoy else None})
+    recipe = {"argv": argv + ["app:app"], "env": shlex.join(envt), "files": {load: texts[0]}}
+    if len(texts) > 1:
+        recipe["steps"] = [{"files": {load: x}} for x in texts[1:]]
+    if fw is not None:
+        recipe["framework"] = (fw["pre"] + "\n" if fw["pre"] else "") + "FRAMEWORK = {%r: %s}\n" % (name, fw["py"])
+    model = {"versions": versions, "mentions": versions[0]["mentions"], "load": versions[0]["load"], "dpn": dpn, "ment": [],
+             "name": ident, "family": family, "companions": {"file": T, "cli": U, "env": W}}
     return recipe, model
 
 
@@ -1441,6 +1664,124 @@ def judge_history(run, cell, recipe, model, baseline, obs, MB):
             run.count("reload_other_sources_settings_intact")
 
 
+def judge_names(run, cell, recipe, model, baseline, obs, MB):
+    """Decide one N / NR cell: at start-up and after every reload every setting is what the merge of the REAL mentions
+    gives (the name that merely resembles a setting mentions nothing) and loading does not fail.  At most one violation."""
+    name, ident, family = cell["s"], model["name"], model["family"]
+    vers = model["versions"]
+    shown = {"argv": recipe["argv"], "GUNICORN_CMD_ARGS": recipe.get("env"), "framework": recipe.get("framework"),
+             "file_versions" if len(vers) > 1 else "file": [v["text"] for v in vers] if len(vers) > 1 else vers[0]["text"]}
+    if obs.get("harness"):
+        run.inconclusive_because("cell %s: %s" % (signature(cell), obs["harness"]))
+        return
+    if cell["kind"] == "NR":
+        run.count("reload_histories")
+    steps = obs.get("steps") or []
+    for i, ver in enumerate(vers):
+        if i == 0:
+            o, prefix, failed = obs, "", not obs["ok"]
+            when = "after loading" if len(vers) == 1 else "at the start of a reload history"
+        else:
+            if i > len(steps):
+                run.inconclusive_because("history %s: reload %d was not executed" % (signature(cell), i))
+                return
+            o, prefix, when, failed = steps[i - 1], "reload/", "after reload %d" % i, not steps[i - 1]["returned"]
+        bound = ver["name_bound_to"]
+        ran = ver["load"][-1] in (o.get("loaded") or [])
+        what = "the file binds %s (%s, not a setting) to %s" % (ident, cell["shape"], bound) if bound else \
+            "the file no longer binds %s" % ident
+        if failed:
+            if not ran:
+                # the generated file did not run to its last line: nothing was established about gunicorn
+                run.inconclusive_because("cell %s: the generated configuration file was not executed to its end %s (%s %s)" % (
+                    signature(cell), when, o.get("exc"), (o.get("stderr") or obs.get("stderr_all") or "").strip()[-160:]))
+                return
+            run.violation(prefix + "name-that-is-not-a-setting-stopped-loading/" + family,
+                          "%s: %s loading failed (%s code=%s %s) although every setting the sources mention is valid: %s, "
+                          "a name gunicorn has to ignore; sources %s" % (
+                              name, when, o.get("exc"), o.get("code"),
+                              (o.get("stderr") or obs.get("stderr_all") or o.get("msg") or "").strip()[-160:], what,
+                              json.dumps(shown)), cell)
+            return
+        if set(o["values"]) != set(baseline):
+            run.inconclusive_because("set of settings changed between baseline and cell")
+            return
+        wm, wo = deviations(o["values"], ver["mentions"], model, baseline)
+        acted = [d for d in wm + wo if d[0] == name and bound is not None and d[3] == bound]
+        if not acted and i > 0:
+            # the name is gone / rebound, yet what the FORMER version bound it to is in effect
+            former = vers[i - 1]["name_bound_to"]
+            acted = [d for d in wm + wo if d[0] == name and former is not None and d[3] == former]
+            if acted:
+                what = "the former version of the file bound %s (%s, not a setting) to %s" % (ident, cell["shape"], former)
+        if acted:
+            sname, exp, wsrc, got = acted[0]
+            run.violation(prefix + "name-that-is-not-a-setting-acted-as-one/" + family,
+                          "%s: %s the effective value is %s: %s; no source mentions that value - the most authoritative "
+                          "source mentioning %s (%s) says %s; all mentions %s; %d settings deviate from the merge of the "
+                          "sources; sources %s" % (
+                              name, when, got, what, name, SRC_WORDS[wsrc], exp,
+                              json.dumps(ver["mentions"].get(name, {}), sort_keys=True), len(wm) + len(wo),
+                              json.dumps(shown)), cell)
+            return
+        if wm:
+            sname, exp, wsrc, got = wm[0]
+            by = ver["mentions"][sname]
+            run.violation(prefix + _precedence_mechanism(sname, exp, wsrc, got, by, model, baseline, MB),
+                          "%s: effective value %s %s, but the most authoritative source mentioning it (%s) says %s; all "
+                          "mentions %s; built-in default %s; %s; sources %s" % (
+                              sname, got, when, wsrc, exp, json.dumps(by, sort_keys=True), baseline[sname], what,
+                              json.dumps(shown)), cell)
+            return
+        if wo:
+            sname, exp, wsrc, got = wo[0]
+            run.violation(prefix + "unmentioned-setting-changed",
+                          "%s is mentioned by no source but is %s %s instead of its built-in default %s (%d such settings); "
+                          "%s; sources %s" % (sname, got, when, exp, len(wo), what, json.dumps(shown)), cell)
+            return
+        if o["loaded"] != ver["load"]:
+            if o["loaded"][:1] == ver["load"][:1] and len(o["loaded"]) == 2 and o["loaded"][1].startswith(ver["load"][0] + N_END):
+                run.inconclusive_because("cell %s: the generated file ended with %r, expected %r" % (
+                    signature(cell), o["loaded"][1][len(ver["load"][0]):], ver["load"][1][len(ver["load"][0]):]))
+                return
+            run.violation(prefix + "wrong-config-file-loaded", "config files executed %s %s, expected %s; sources %s" % (
+                [os.path.basename(x) for x in o["loaded"]], when, [os.path.basename(x) for x in ver["load"]],
+                json.dumps(shown)), cell)
+            return
+        if judge_effective(run, prefix, when, cell, shown, ver["mentions"], model, baseline, dict(o, control=None), MB):
+            return
+        # reach: the file ran to its end with the name bound (seen), and every setting is the merge of the real mentions
+        vm = dict(model, mentions=ver["mentions"])
+        exp, wsrc = expected(name, vm, baseline)
+        if bound is not None:
+            run.count("names_not_settings_ignored")
+            run.count("names_not_settings_ignored_" + family)
+            run.count("names_not_settings_shape_" + cell["shape"])
+            run.count("names_not_settings_place_" + cell["place"])
+            if wsrc == "file" and exp != baseline[name]:
+                run.count("names_not_settings_file_value_in_effect_%s_the_name" % (
+                    "before" if cell["place"] == "after" else "after"))
+            elif wsrc == "default":
+                run.count("names_not_settings_default_in_effect_beside_the_name")
+            elif wsrc != "file":
+                run.count("names_not_settings_%s_in_effect_beside_the_name" % wsrc)
+            if i == 0 and len(vers) == 1:
+                run.count("names_not_settings_delivery_" + cell["delivery"])
+                run.count("names_not_settings_ctx_" + cell["ctx"])
+        if i > 0:
+            run.count("reload_settings_compared", len(baseline))
+            comp = model["companions"]["file"]
+            if expected(comp, vm, baseline)[0] != expected(comp, dict(model, mentions=vers[i - 1]["mentions"]), baseline)[0]:
+                run.count("names_not_settings_reload_read_the_edit")
+            run.count("names_not_settings_history_" + cell["op"])
+            run.count("names_not_settings_reload_delivery_" + cell["delivery"])
+            run.count("names_not_settings_reload_ctx_" + cell["ctx"])
+    if len(vers) == 1:
+        run.count("names_not_settings_cells")
+    else:
+        run.count("names_not_settings_histories")
+
+
 def history_nontrivial(cell, model, baseline):
     if cell["kind"] == "RI" or cell["ctx"] in ("cli", "env") or model.get("raw_env_claims"):
         return True
@@ -1471,7 +1812,7 @@ def run_cells(run, cells, seed, tier, isolate):
         MB = {m["name"]: m for m in meta}
         built = []
         pre = None
-        if any(c["kind"] in ("R", "RI", "RE") for c in cells):
+        if any(c["kind"] in ("R", "RI", "RE", "N", "NR") for c in cells):
             # histories choose values that differ from the built-in default: one baseline load ahead of the batch
             pre = e7.run_recipes(home, [BASE_RECIPE], timeout=120)[0]
             if not pre["ok"]:
@@ -1482,7 +1823,9 @@ def run_cells(run, cells, seed, tier, isolate):
                 run.inconclusive_because("no value table for setting %s (validator %s)" % (
                     c["s"], MB.get(c["s"], {}).get("validator")))
                 continue
-            if c["kind"] in ("R", "RI", "RE"):
+            if c["kind"] in ("N", "NR"):
+                built.append((c,) + build_names(c, MB, P, pre["values"]))
+            elif c["kind"] in ("R", "RI", "RE"):
                 built.append((c,) + build_history(c, MB, P, pre["values"]))
             else:
                 built.append((c,) + build(c, MB, P))
@@ -1506,8 +1849,12 @@ def run_cells(run, cells, seed, tier, isolate):
             return
         run.count("baselines_agree")
         for (c, recipe, model), o in zip(built, obs[2:-1]):
-            if o.get("harness") and c["kind"] not in ("R", "RI", "RE"):
+            if o.get("harness") and c["kind"] not in ("R", "RI", "RE", "NR"):
                 run.inconclusive_because("cell %s: %s" % (signature(c), o["harness"]))
+            if c["kind"] in ("N", "NR"):
+                run.case(signature(c), nontrivial=True)
+                judge_names(run, c, recipe, model, baseline, o, MB)
+                continue
             if c["kind"] in ("R", "RI", "RE"):
                 run.case(signature(c), nontrivial=history_nontrivial(c, model, baseline))
                 judge_history(run, c, recipe, model, baseline, o, MB)
@@ -1539,6 +1886,11 @@ def run_cells(run, cells, seed, tier, isolate):
                             "environment, file and framework; for %s finally %s, for %s its built-in default" % (
                                 c["s"], expected(c["s"], dict(model, mentions=last["mentions"]), baseline)[0],
                                 model["unmentioned"])}, cap=4)
+            if c["kind"] in ("N", "NR") and c["place"] == "after" and c["ctx"] == "none":
+                run.sample({"cell": c, "argv": recipe["argv"], "GUNICORN_CMD_ARGS": recipe.get("env"),
+                            "config_file_versions": [v["text"] for v in model["versions"]],
+                            "expected": "%s is not a setting: %s = %s, every other setting as the real mentions say" % (
+                                model["name"], c["s"], expected(c["s"], model, baseline)[0])}, cap=6)
             if c["kind"] == "M" and len(c["subset"]) >= 3 or c["kind"] == "I" and c["fallback"]:
                 exp = None if c["kind"] == "I" else expected(c["s"], model, baseline)[0]
                 run.sample({"cell": c, "argv": recipe["argv"], "GUNICORN_CMD_ARGS": recipe.get("env"),
@@ -1614,13 +1966,28 @@ def main(tier, seed):
                 "effective_follows_source_variable_unset", "effective_follows_source_variable_unrecognised",
                 "environment_default_variable_unset", "environment_default_applies_true",
                 "environment_default_applies_false", "environment_default_differs_from_unset_default",
-                "environment_default_case_insensitive", "environment_default_unrecognised_value_not_judged")
+                "environment_default_case_insensitive", "environment_default_unrecognised_value_not_judged",
+                # names of a configuration file that are NOT settings but resemble one: the file ran to its end with the
+                # name bound (seen) and every setting was the merge of the real mentions
+                "names_not_settings_cells", "names_not_settings_histories", "names_not_settings_ignored",
+                "names_not_settings_ignored_other-letter-case", "names_not_settings_ignored_affixed",
+                *["names_not_settings_shape_" + x for x, _, _ in N_SHAPES],
+                *["names_not_settings_place_" + x for x in N_PLACES],
+                *["names_not_settings_delivery_" + x for x in N_DELIVERIES],
+                *["names_not_settings_ctx_" + x for x in sorted(set(N_CTX))],
+                "names_not_settings_file_value_in_effect_before_the_name",
+                "names_not_settings_file_value_in_effect_after_the_name",
+                "names_not_settings_default_in_effect_beside_the_name",
+                *["names_not_settings_%s_in_effect_beside_the_name" % x for x in ("cli", "env", "framework")],
+                "names_not_settings_reload_read_the_edit", *["names_not_settings_history_" + x for x in N_OPS],
+                *["names_not_settings_reload_delivery_" + x for x in R_DELIVERIES],
+                *["names_not_settings_reload_ctx_" + x for x in sorted(set(N_CTX))])
     meta = _meta_once()
     cells = enumerate_cells(meta, tier, seed)
     run.info["settings"] = len(meta)
     run.info["settings_with_cli_flag"] = len([m for m in meta if m["cli"]])
     run.info["matrix_cells"] = len(cells)
-    for k in ("M", "D", "X", "E", "I", "R", "RI", "RE"):
+    for k in ("M", "D", "X", "E", "I", "R", "RI", "RE", "N", "NR"):
         run.info["matrix_cells_" + k] = len([c for c in cells if c["kind"] == k])
     run.extra_cov["exhaustive"] = True
     run.extra_cov["matrix"] = ("every setting of make_settings() x every non-empty subset of the sources able to "
@@ -1635,7 +2002,12 @@ def main(tier, seed):
                                "own environment, and the start-up-only control (see rule); plus, for the setting whose "
                                "effective value has an environment-derived default (sendfile / SENDFILE), every subset of the "
                                "sources (the empty one included) x every value of the pool x the variable unset / 1 / 0 / yes / "
-                               "false / TRUE / n / garbage / empty" % len(assignments(4, tier, seed)))
+                               "false / TRUE / n / garbage / empty; plus, per setting, configuration files holding a name "
+                               "that is not a setting but resembles it (other letter case, underscore / prefix / suffix, "
+                               "class / function / import in another case; %d shapes) bound to another valid value of it, in "
+                               "a file that does not mention the setting / mentions it before / after the name, every delivery "
+                               "(python:MODULE included), the other sources rotating, and reload histories in which an edit "
+                               "adds / removes / rebinds such a name" % (len(assignments(4, tier, seed)), len(N_SHAPES)))
     run.assumptions = [
         "judged at the settings layer (cfg.settings[name].get() after Application.load_config) AND, once every stored "
         "setting equals the merge, at the derived Config properties the server acts on where reading them has no outward "
@@ -1685,6 +2057,14 @@ def main(tier, seed):
         "and falls back to the type tabulated with the representative; the rule is the same for every type",
         "a reload with a rejected value in the file may either not return (error status) or return with the former "
         "merge intact in every setting; anything else counts as the rejected value having been silently replaced",
+        "module-level names of a configuration file / python: module that are not setting names (setting names are the "
+        "lower-case keys of make_settings(), enumerated at run time) mention nothing, whatever they resemble and whatever "
+        "they are bound to: cells N / NR expect the merge of the real mentions in every setting and a load that does not "
+        "fail (name-that-is-not-a-setting-acted-as-one/<family> when the setting the name resembles has exactly the value "
+        "the name is - or, after an edit, was - bound to; name-that-is-not-a-setting-stopped-loading/<family> when loading "
+        "fails although the generated file ran to its last line, which the file itself records; a generated file that did "
+        "not run to its end is inconclusive).  The framework-defaults dict is a different interface (Application.load_config "
+        "lower-cases its keys and refuses unknown ones by design): such names are not put there",
         "histories deliver the file by path (-c PATH on the command line or in GUNICORN_CMD_ARGS, file:PATH, discovered "
         "./gunicorn.conf.py); python:MODULE is left out of histories: the module stays in sys.modules, so an edit of "
         "its file is by construction of the import system not seen by a reload; the `config` setting itself has no "
